@@ -237,7 +237,7 @@ fn run_direct(h: &History, ctx: &mut Ctx) -> Result<(), Fail> {
     Ok(())
 }
 
-fn case_direct(bytes: &[u8], _s: &[u8], ctx: &mut Ctx) -> Result<(), Fail> {
+pub fn case_direct(bytes: &[u8], _s: &[u8], ctx: &mut Ctx) -> Result<(), Fail> {
     let mut src = Source::new(bytes);
     let h = dec_history(&mut src);
     ctx.case(&h);
@@ -304,7 +304,7 @@ fn run_macros(h: &History) -> Result<(bool, bool), Fail> {
     Ok((model.hist_between, model.redescribed))
 }
 
-fn case_threads(bytes: &[u8], _s: &[u8], ctx: &mut Ctx) -> Result<(), Fail> {
+pub fn case_threads(bytes: &[u8], _s: &[u8], ctx: &mut Ctx) -> Result<(), Fail> {
     let mut src = Source::new(bytes);
     let nt = 2 + src.below(2);
     let hs: Vec<History> = (0..nt).map(|_| dec_history(&mut src)).collect();
